@@ -718,7 +718,10 @@ namespace Clipper2Lib {
   {
     typename Path<T>::size_type idx = 0;
     double max_d = 0;
-    while (end > begin && path[begin] == path[end]) flags[end--] = false;
+    // a path that ends where it starts has a degenerate chord: measure from the last vertex
+    // that differs from path[begin] instead, and keep that vertex as well as the end vertex
+    while (end > begin && path[begin] == path[end]) --end;
+    flags[end] = true;
     for (typename Path<T>::size_type i = begin + 1; i < end; ++i)
     {
       // PerpendicDistFromLineSqrd - avoids expensive Sqrt()
